@@ -200,7 +200,8 @@ pub fn run(ctx: &Ctx) -> Report {
                     }
                 };
                 let total = hss::total_leaves(&lv) as u64;
-                let lens: Vec<usize> = if miri { vec![n + 3] } else { vec![n + 1, n + 2, 100, 4096] };
+                // lengths around the 16-bit boundary as well (a length kept in a u16 wraps there)
+                let lens: Vec<usize> = if miri { vec![n + 3] } else { vec![n + 1, n + 2, 100, 4096, 65535, 65536, 65536 + n, 2 * 65536 + 1] };
                 let reps = if miri { 1 } else { ctx.size(2, 10) };
                 for (li, &len) in lens.iter().enumerate() {
                     for rep in 0..reps {
